@@ -450,11 +450,10 @@ pub fn gen_file_history(rng: &mut Rng, _avoid: &Avoid) -> History {
     let nprog = 1 + rng.below(3);
     let mut programs = vec![];
     for _ in 0..nprog {
-        let parity = rng.chance(1, 5);
-        let sc = if parity {
-            gen_parity_program(rng, &mut files, &mut exists)
-        } else {
-            gen_file_program(rng, &mut exists)
+        let sc = match rng.below(20) {
+            0..=3 => gen_parity_program(rng, &mut files, &mut exists),
+            4..=8 => gen_roundtrip_program(rng, &mut exists),
+            _ => gen_file_program(rng, &mut exists),
         };
         programs.push(sc);
     }
@@ -476,6 +475,14 @@ fn trace_vars(ids: &mut Ids) -> Stmt {
             PItem::E(Expr::Str("[".into())),
             PItem::Semi,
             PItem::E(Expr::SVar("S1$".into())),
+            PItem::Semi,
+            PItem::E(Expr::Str("][".into())),
+            PItem::Semi,
+            PItem::E(Expr::SVar("S2$".into())),
+            PItem::Semi,
+            PItem::E(Expr::Str("][".into())),
+            PItem::Semi,
+            PItem::E(Expr::SVar("S3$".into())),
             PItem::Semi,
             PItem::E(Expr::Str("]".into())),
         ],
@@ -575,6 +582,124 @@ fn gen_parity_with(rng: &mut Rng, content: Vec<u8>, ids: &mut Ids) -> Scenario {
         main,
         procs: vec![],
         stdin: content,
+    }
+}
+
+/// Write with PRINT #, close, read back with LINE INPUT # / INPUT # until EOF: the first
+/// sentence of the property, end to end, also across programs of a history (APPEND).
+fn gen_roundtrip_program(rng: &mut Rng, exists: &mut BTreeSet<String>) -> Scenario {
+    let mut ids = Ids(0);
+    let mut main = vec![];
+    let handler = rng.chance(1, 2);
+    if handler {
+        main.push(ids.st(StmtKind::OnErrorGoto("H1".into())));
+    }
+    let name = rng.pick(&NAMES).to_string();
+    let append = exists.contains(&name) && rng.chance(1, 2);
+    let hw = rng.range(1, 3) as i32;
+    main.push(ids.st(StmtKind::Open {
+        name: name.clone(),
+        mode: if append { Mode::Append } else { Mode::Output },
+        handle: hw,
+        len: None,
+    }));
+    exists.insert(name.clone());
+    let nlines = 1 + rng.below(4);
+    let mut shapes: Vec<usize> = vec![];
+    for _ in 0..nlines {
+        let nf = 1 + rng.below(3);
+        shapes.push(nf);
+        let mut items = vec![];
+        for j in 0..nf {
+            if j > 0 {
+                items.push(PItem::Semi);
+                items.push(PItem::E(Expr::Str(",".into())));
+                items.push(PItem::Semi);
+            }
+            match rng.below(4) {
+                0 => items.push(PItem::E(Expr::Int(rng.range(-999, 999) as i32))),
+                1 => items.push(PItem::E(Expr::Str("z".repeat(rng.range(1, 70) as usize)))),
+                _ => items.push(PItem::E(Expr::Str(
+                    rng.pick(&["ab", "Hello", "q", "Z9", "x y", "end"]).to_string(),
+                ))),
+            }
+        }
+        main.push(ids.st(StmtKind::Print {
+            dev: Dev::File(hw),
+            items,
+            using: None,
+        }));
+    }
+    main.push(ids.st(StmtKind::Close(vec![hw])));
+    let hr = rng.range(1, 3) as i32;
+    main.push(ids.st(StmtKind::Open {
+        name,
+        mode: Mode::Input,
+        handle: hr,
+        len: None,
+    }));
+    match rng.below(3) {
+        0 => {
+            // line by line until EOF
+            let body = vec![
+                ids.st(StmtKind::LineInputFile {
+                    handle: hr,
+                    var: "S1$".into(),
+                }),
+                trace_vars(&mut ids),
+            ];
+            let id = {
+                ids.0 += 1;
+                ids.0
+            };
+            main.push(Stmt {
+                id,
+                kind: StmtKind::Do {
+                    top: true,
+                    until: true,
+                    cond: Expr::Eof(hr),
+                    body,
+                },
+            });
+        }
+        1 => {
+            // field by field, as written (only the lines written by this program when the
+            // file was created here)
+            for nf in &shapes {
+                let vars: Vec<String> = ["S1$", "S2$", "S3$"].iter().take(*nf).map(|s| s.to_string()).collect();
+                main.push(ids.st(StmtKind::InputFile { handle: hr, vars }));
+                main.push(trace_vars(&mut ids));
+            }
+        }
+        _ => {
+            // one read more than there are lines: the last one must raise error 62
+            for _ in 0..(shapes.len() + if append { 3 } else { 1 }) {
+                main.push(ids.st(StmtKind::LineInputFile {
+                    handle: hr,
+                    var: "S1$".into(),
+                }));
+                main.push(trace_vars(&mut ids));
+            }
+        }
+    }
+    main.push(ids.st(StmtKind::Print {
+        dev: Dev::Screen,
+        items: vec![
+            PItem::E(Expr::Str("EOF".into())),
+            PItem::Semi,
+            PItem::E(Expr::Eof(hr)),
+        ],
+        using: None,
+    }));
+    main.push(ids.st(StmtKind::Close(vec![])));
+    main.push(ids.st(StmtKind::End));
+    if handler {
+        handler_tail(&mut ids, &mut main);
+    }
+    Scenario {
+        main,
+        procs: vec![],
+        stdin: vec![],
     }
 }
 
